@@ -177,10 +177,14 @@ def run(ctx, replay=None):
                     ro = least_squares(resid, cof, method='lm', xtol=1e-12, ftol=1e-12, gtol=1e-12, max_nfev=400)
                 f_ro = float(np.sum(ro.fun ** 2))
                 ctx.tests['reoptimisations'] = ctx.tests.get('reoptimisations', 0) + 1
-                if np.isfinite(f_ro) and f_ro < f_cof * (1 - 0.02) - 1e-9 * max(1.0, f_cof):
+                # "noticeably": 2 % of the objective, and more than 1e-9 of the (weighted) size of the data it measures
+                scale_ = float(np.sum((y / (sg if sg is not None else 1.0)) ** 2))
+                if case['method'] == 'lm' and (cof[0] <= 0 or cof[1] <= 0):
+                    ctx.count('lm_unphysical_result_skipped')          # a negative range / sill: the unbounded method did not converge to a variogram
+                elif np.isfinite(f_ro) and f_ro < f_cof * (1 - 0.02) - 1e-9 * max(1.0, f_cof, scale_):
                     ctx.problem('oracle', 're-optimising from the reported parameters lowers the sigma-weighted objective from %r to %r' % (f_cof, f_ro), case,
                                 {'cof': cof.tolist(), 'reoptimised': ro.x.tolist()},
-                                {'what': 'not-a-local-minimum', 'class': 'weighted-multi-parameter' if (len(cof) >= 3 and sg is not None)
+                                {'what': 'not-a-local-minimum', 'class': 'weighted-multi-parameter' if (len(cof) >= 3 and sg is not None) else 'exp-weighted' if case['sigma'] == 'exp'
                                  else 'lm-shape-model' if (case['method'] == 'lm' and any(m_ in mname for m_ in ('matern', 'stable')) and len(cof) >= 3) else 'other'})
             except (ZeroDivisionError, FloatingPointError, ValueError) as e:
                 ctx.count('objective_rejected', type(e).__name__)
